@@ -1,9 +1,11 @@
 import Proofs.Lemmas.LMLoop
 import Proofs.Lemmas.LMRetr
+import Proofs.Lemmas.LMNormal
 /-!
 # C08 — LM never accepts a worse loss, restores rejected trials, reports the true loss
 
-Property theorems only (helpers: `Proofs/Lemmas/LMLoop.lean`, `Proofs/Lemmas/LMRetr.lean`; model: `Pose/Model/LMLoop.lean`).
+Property theorems only (helpers: `Proofs/Lemmas/LMLoop.lean`, `Proofs/Lemmas/LMRetr.lean`, `Proofs/Lemmas/LMNormal.lean`;
+model: `Pose/Model/LMLoop.lean`, `Pose/Model/LMNormal.lean`).
 All statements are at `α = ℝ`, for arbitrary parameter / step / strategy-state types `P D S`, every loss function
 `lossAt`, every solver behaviour (including raising at any solve), every user strategy `upd`, every `reject`, every
 history of calls.
@@ -1446,6 +1448,47 @@ each follow their own history (nothing is shared through the defaults in the mod
 theorem default_trust_inBounds :
     InBounds Kind.trust (⟨1/2, 1/1000, 2, 1/2, 1/2, 1/1000000, 10^16⟩ : Hyper ℝ) (initTrust (10^6) (1/2)) := by
   rw [initTrust_inBounds _ _ _ (by norm_num)]
+  norm_num
+
+/-! ## pass 7: the predicted decrease of a genuine LM step, from the linear system itself
+
+`qualityDen_pos_of_lm_step` took the contracted scalar identity as a hypothesis. Here it is derived from what `LM.step`
+actually asks of the solver: `D` solves `(JᵀJ + diag Λ) D = −JᵀR` (`SolvesDamped`, model `Pose/Model/LMNormal.lean`;
+`Λ_j = clamp(A_jj)(1+damping) − A_jj > 0`, the construction of the matrix being property C07). -/
+
+/-- contracting the damped normal equations with the step: `‖J D‖² + (J D)·R + DᵀΛD = 0` -/
+theorem lm_step_contraction (J : DMat ℝ) (lam Dv R : DVec ℝ) (hw : ∀ r ∈ J, r.length = Dv.length)
+    (hll : lam.length = Dv.length) (hs : SolvesDamped J lam Dv R) :
+    DVec.normSq (DMat.mulVec J Dv) + DVec.dot (DMat.mulVec J Dv) R + wsq lam Dv = 0 := by
+  have h : DVec.dot (DVec.add (tmulVec Dv.length J (DMat.mulVec J Dv)) (List.zipWith (· * ·) lam Dv)) Dv =
+      DVec.dot (DVec.neg (tmulVec Dv.length J R)) Dv := by
+    unfold SolvesDamped at hs; rw [hs]
+  rw [ddot_add_left _ _ _ (tmulVec_length _ J _ hw) (by simp [hll]), tmulVec_dot J _ Dv hw, ddot_neg_left,
+    tmulVec_dot J R Dv hw, ← wsq_eq, ddot_comm R] at h
+  unfold DVec.normSq
+  linarith
+
+/-- **Every non-zero step that solves the damped normal equations with a positive diagonal shift predicts a decrease**:
+`den = ‖J D‖² + 2·DᵀΛD > 0` — for every Jacobian (any rank, any shape), every residual vector and every positive `Λ`. -/
+theorem qualityDen_pos_of_normal_equations (J : DMat ℝ) (lam Dv R : DVec ℝ) (hw : ∀ r ∈ J, r.length = Dv.length)
+    (hlen : R.length = J.length) (hll : lam.length = Dv.length) (hpos : ∀ l ∈ lam, 0 < l) (hD : ∃ x ∈ Dv, x ≠ 0)
+    (hs : SolvesDamped J lam Dv R) :
+    0 < qualityDen J Dv R ∧ qualityDen J Dv R = DVec.normSq (DMat.mulVec J Dv) + 2 * wsq lam Dv :=
+  qualityDen_pos_of_lm_step J Dv R hlen (wsq lam Dv) (wsq_pos lam Dv hpos hll hD) (lm_step_contraction J lam Dv R hw hll hs)
+
+/-- **A rejected genuine LM trial is always classified "unsuccessful"** (so Adaptive raises the damping and TrustRegion
+shrinks the radius before the next trial: `adaptive_rejected_up`, `trust_rejected_shrinks`): no assumption on the sign of
+the predicted decrease is left — it follows from the linear system the step solves. -/
+theorem rejected_lm_step_unsuccessful (J : DMat ℝ) (lam Dv R : DVec ℝ) (hw : ∀ r ∈ J, r.length = Dv.length)
+    (hlen : R.length = J.length) (hll : lam.length = Dv.length) (hpos : ∀ l ∈ lam, 0 < l) (hD : ∃ x ∈ Dv, x ≠ 0)
+    (hs : SolvesDamped J lam Dv R) (high low last loss : ℝ) (hworse : last < loss) (hh : 0 < high) (hl : 0 < low) :
+    verdict high low (last - loss) (qualityDen J Dv R) = Verdict.bad :=
+  rejected_is_unsuccessful high low last loss _ hworse
+    (qualityDen_pos_of_normal_equations J lam Dv R hw hlen hll hpos hD hs).1 hh hl
+
+/-- non-vacuity: `J = [[1],[2]]`, `Λ = [1]`, `R = [-2,-1]`: `JᵀJ = 5`, `−JᵀR = 4`, so `D = [2/3]` solves `(5+1)D = 4` -/
+example : SolvesDamped ([[1], [2]] : DMat ℝ) [1] [2/3] [-2, -1] := by
+  simp [SolvesDamped, tmulVec, DMat.mulVec, DVec.dot, DVec.sum, DVec.add, DVec.smul, DVec.neg, DVec.zero, k_real]
   norm_num
 
 /-! ## non-vacuity: concrete runs of the model (`P = D = ℚ`-like reals, loss `x²`) -/
